@@ -140,7 +140,7 @@ def check_fit(case, ctx):
         from pmutt.empirical.nasa import Nasa
         inner = T[5:-5] if len(T) > 10 else T[len(T) // 2:len(T) // 2 + 1]
         cands = [float(inner[min(len(inner) - 1, int(u * len(inner)))]) for u in case['T_mid_u']]
-        T_mid = None if case['T_mid_how'] == 'none' else (cands[0] if case['T_mid_how'] == 'scalar' else sorted(set(cands)))
+        T_mid = None if case['T_mid_how'] == 'none' else (cands[0] if case['T_mid_how'] == 'scalar' else list(dict.fromkeys(cands)))     # candidates in the order drawn, not sorted
         ctx.label('T_mid:' + case['T_mid_how'])
         if route == 'from_model':
             obj = Nasa.from_model(model=model, name='fit', T_low=lo, T_high=hi, T_mid=T_mid, n_T=case['n_T'],
